@@ -26,7 +26,8 @@ RULE = ("schedule space: task = fn entry, r <= 2 progress reports, return | rais
         "x outcome (3) x cooperative / non-cooperative task, with a result mapping function and a user callback. "
         "Plus sampled schedules (k <= 6, set_progress_callback, no mapping function, result dict without 'results', "
         "extra worker steps) and an argument stream (positional / keyword / preset / extra positional -> max_samples / "
-        "passed twice / unknown / too many / progress_callback keyword; rejected execute followed by a valid one). "
+        "passed twice / unknown / too many / with and without the progress_callback keyword; rejected execute followed "
+        "by a valid one). "
         "Non-trivial: at least one caller action falls strictly between execute and the end of the task, or the "
         "arguments are not all positional-and-valid; distinct by (config, program, event list).")
 TRUSTED = ["model: coq/Model/LocalJob.v, LocalJobX.v (hand-written from local_job.py, job.py, job_status.py, "
@@ -41,9 +42,11 @@ ASSUMPTIONS = ["granularity: execute (check, parameter handling, start_run), eve
                "user progress callbacks return None, {} or {'cancel_requested': False} and do not raise; the result "
                "mapping function does not raise; results_list conversion is not modelled",
                "timestamps (durations) are not compared"]
-EXPLANATION = ("Known findings are deviations of the faithful model from the specification that replay on /repo: "
-               "status/get_results raise AttributeError during a synchronous run; a task ending with a BaseException "
-               "is reported SUCCESS (async) or stays RUNNING (sync); the progress_callback keyword is rejected.")
+EXPLANATION = ("The model follows /repo as it is now (after fix commits 5d55599b: status readable during a synchronous "
+               "run, and 53f68db6: progress_callback keyword consumed); the pre-repair behaviour is kept in the model as "
+               "code_3e543e6e for the historical ..._old_code theorems and is cross-checked here against its recorded "
+               "witnesses only.  Open finding: a task ending with a BaseException that is not an Exception is reported "
+               "SUCCESS (async) or stays RUNNING (sync).")
 
 WATCHDOG = 10.0
 PARALLEL = 1
@@ -455,11 +458,12 @@ def enc_event(ev):
     return list(ev)
 
 
-def model_request(cfg, prog, events):
+def model_request(cfg, prog, events, old_code=False):
     names, cmd0, mapp0, has_map, ucb0 = cfg
     steps, out, coop, shape, pay, ppay = prog
     enc = lambda d: [[k, ([] if v is None else v)] for k, v in d]
-    return (1800, [[list(names), enc(cmd0), enc(mapp0), int(has_map), [] if ucb0 is None else ucb0],
+    return (1800, [[list(names), enc(cmd0), enc(mapp0), int(has_map), [] if ucb0 is None else ucb0] +
+                   ([[1, 1]] if old_code else []),
                    [[list(s) for s in steps], list(out), int(coop), shape, pay, ppay],
                    [enc_event(e) for e in events]])
 
@@ -712,32 +716,54 @@ def run_cases(ctx, cases, stream, reported):
 # the model is faithful to the code; these are the places where the faithful model itself departs from the
 # specification (proved as ..._refuted in coq/Props/C18.v).  Each is checked against the real job directly.
 def spec_checks(ctx):
-    """The specification's answers, asked of the real job on the three witnesses of the refuted statements."""
+    """The specification's answers, asked of the real job on the witnesses of the refuted statements (one open,
+    two repaired in /repo: those two now guard against a regression)."""
     std_cfg = ((10,), ((10, None),), (), True, None)
-    # 1. status during a synchronous run must say RUNNING
+    # 1. status during a synchronous run must say RUNNING (repaired by 5d55599b)
     prog = (((500, 1),), (0,), False, 0, 5, 6)
     events = [(4, 0, (3,), (), False), (1,), (0,), (0,)]
     witness(ctx, "status-AttributeError-during-sync-run", std_cfg, prog, True, events, 1, [8, [0, 1, 0, 0, []]],
             "LocalJob.status / is_running / get_results raise AttributeError ('NoneType' object has no attribute "
             "'is_alive') when queried during a synchronous run instead of reporting RUNNING")
-    # 2. a task ending with a BaseException must not be reported successful
+    # 2. a task ending with a BaseException must not be reported successful (open)
     prog = ((), (2,), False, 0, 4, 6)
     events = [(4, 1, (3,), (), False), (0,), (1,)]
     witness(ctx, "BaseException-task-reported-success", std_cfg, prog, False, events, 2, "status ERROR (3)",
             "a task that ends with a BaseException which is not an Exception (SystemExit, KeyboardInterrupt, ...) "
             "is reported SUCCESS with results None by an asynchronous job (the dead-worker repair in LocalJob.status); "
-            "a synchronous job stays RUNNING and its status can no longer be read",
+            "a synchronous job stays RUNNING",
             ok=lambda o: o[0] == 8 and o[1][0] == 0 and o[1][1] == 3)
-    # 3. the progress_callback keyword must be accepted
+    # 3. the progress_callback keyword must be accepted and the callback must receive the progress (repaired by 53f68db6)
     prog = (((500, 1),), (0,), False, 0, 5, 6)
-    events = [(4, 0, (3,), ((1, 7),), False)]
-    witness(ctx, "execute-progress_callback-keyword-rejected", std_cfg, prog, False, events, 0, "accepted",
+    events = [(4, 0, (3,), ((1, 7),), False), (0,), (0,)]
+    witness(ctx, "execute-progress_callback-keyword-rejected", std_cfg, prog, False, events, 1,
+            "accepted, callback 7 receives (0.5, 'phase1')",
             "execute_sync/execute_async(progress_callback=cb) store the callback but leave the keyword in kwargs, so "
             "_handle_params rejects the call with 'Unused parameters in user call ([\\'progress_callback\\'])'",
-            ok=lambda o: o == [11, [0]])
+            ok=lambda o: o == [(7, 0.5, "phase1")], read=lambda run: list(run.cb_log))
 
 
-def witness(ctx, sig, cfg, prog, inline, events, idx, expected, what, ok=None):
+def historical_model_checks(ctx):
+    """The pre-repair configuration of the model (code_3e543e6e) still answers as the old code did (recorded
+    witnesses of the two repaired defects); the current configuration answers as the specification."""
+    std_cfg = ((10,), ((10, None),), (), True, None)
+    prog = (((500, 1),), (0,), False, 0, 5, 6)
+    ev1 = [(4, 0, (3,), (), False), (1,)]
+    ev3 = [(4, 0, (3,), ((1, 7),), False)]
+    reqs = [model_request(std_cfg, prog, ev1, True), model_request(std_cfg, prog, ev1, False),
+            model_request(std_cfg, prog, ev3, True), model_request(std_cfg, prog, ev3, False)]
+    outs = ctx.model.run(reqs)
+    got = [outs[0][1][0], outs[1][1][0], outs[2][0][0], outs[3][0][0]]
+    want = [[[8, [1]]], [[8, [0, 1, 0, 0, []]]], [[11, [2, [1, [1]]]]], [[11, [0]], [1]]]
+    ctx.count("historical-model-witness", 4)
+    if got != want:
+        ctx.fail("model-code-versions", "the two code versions of the model do not answer as recorded",
+                 {"requests": "status during sync run / progress_callback keyword, old and current code"},
+                 json.dumps(want), json.dumps(got))
+    return reqs
+
+
+def witness(ctx, sig, cfg, prog, inline, events, idx, expected, what, ok=None, read=None):
     run = Run(cfg, prog, inline)
     old_hook = threading.excepthook
     threading.excepthook = lambda a: None
@@ -746,12 +772,12 @@ def witness(ctx, sig, cfg, prog, inline, events, idx, expected, what, ok=None):
         for i, ev in enumerate(events):
             if ev[0] == 0:
                 o = run.worker_step(None)
-            elif ev[0] == 4 and not (1 in [k for k, _ in ev[3]]):
+            elif ev[0] == 4:
                 o = run.start(ev)
             else:
                 o = run.issue(ev)
             if i == idx:
-                obs = o
+                obs = read(run) if read else o
         run.cleanup()
     except HarnessFailure as e:
         ctx.fail("harness-watchdog", f"HARNESS failure (not a violation of C18): {e}", describe(cfg, prog, inline, events))
@@ -814,8 +840,10 @@ def run(ctx):
         prog = (steps, out, bool(g.below(2)), g.choice([0, 0, 2]), g.below(100), 100 + g.below(100))
         cfg = ((10, 11), ((10, None), (11, 4 if g.below(2) else None)), ((20, None),) if g.below(2) else (),
                bool(g.below(3)), g.choice([None, 6, 7, 8]))
-        main = (4, is_async, (3,) if g.below(2) else (), ((11, 9),) if cfg[1][1][1] is None and g.below(2) else (),
-                bool(g.below(2)))
+        main_kw = ((11, 9),) if cfg[1][1][1] is None and g.below(2) else ()
+        if g.below(4) == 0:
+            main_kw = main_kw + ((1, g.choice([6, 7, 8])),)      # progress_callback=cb
+        main = (4, is_async, (3,) if g.below(2) else (), main_kw, bool(g.below(2)))
         k = g.below(7)
         backbone = [main] + [(0,)] * (r + 1 + g.below(3))
         acts = []
@@ -868,6 +896,8 @@ def run(ctx):
                     if valid and k in names[:npos]:
                         continue
                     kws.append((k, 7 if k == 1 else 70 + g.below(9)))
+            if valid and g.below(4) == 0:
+                kws.append((1, g.choice([6, 7, 8])))      # progress_callback=cb
             return args, tuple(g.shuffle(kws))
         is_async = g.below(2)
         ev = []
@@ -887,12 +917,13 @@ def run(ctx):
     # ---------------------------------------------------------------- the specification on the refuted statements
     spec_checks(ctx)
     ctx.streams["specification-witnesses"] = 3
+    hist_reqs = historical_model_checks(ctx)
     for sig, cnt in sorted(reported.items()):
         ctx.notes.append(f"{sig}: {cnt} case(s)")
     ctx.exhaustive = True
 
     # extraction vs vm_compute
-    sample = [model_request(c, p, e) for c, p, i, e in cases[:3]]
+    sample = [model_request(c, p, e) for c, p, i, e in cases[:3]] + hist_reqs
     a = ctx.model.run(sample)
     b = ctx.model.vm_crosscheck(sample, "c18")
     ctx.count("vm_compute_crosscheck", len(sample))
